@@ -60,6 +60,11 @@ class Dataset:
 
     def datavector(self, flatten=True):
         """ return the database in vector-of-counts form """
+        if len(self.domain) == 0:
+            # no attributes left: the contingency table is the single total count (or weight)
+            total = self.df.shape[0] if self.weights is None else np.sum(self.weights)
+            ans = np.array(float(total))
+            return ans.flatten() if flatten else ans
         bins = [range(n+1) for n in self.domain.shape]
         ans = np.histogramdd(self.df.values, bins, weights=self.weights)[0]
         return ans.flatten() if flatten else ans
